@@ -748,3 +748,82 @@ C12_INIT_PLATES = dict(
     implicit_return="tt",
 )
 ALL += [C12_INIT_OBS, C12_INIT_PLATES]
+
+# ---- C20: synergy.py calculate_synergy, data.py create_single_treatment_effect_map / _array (vocabulary: end of Model/Synergy.v) ----
+# Arrays: 1-d int = `list Z`, 2-d int = the list of its rows with shape[1] = the explicit parameter `arity` (it is defined also
+# for zero rows), bool arrays likewise, float arrays = lists of exact rationals.  The effect map is a `pairdict` (py2gal).
+# Trusted per entry: one numpy / builtin call each; which of them raise (boolean mask of another length, `&` of other lengths,
+# mean of nothing, the last column of no columns, np.array of ragged rows) is part of the entry.
+_QC = "Qcanon.Qc"
+_ZS, _ZM, _BS, _BM, _QS = "list Z", "list list Z", "list bool", "list list bool", "list " + _QC
+_EMAP = "pairdict " + _QC
+_C20_NUMPY = [
+    ("CONTROL_SENTINEL_VALUE", "CONTROL_SENTINEL_VALUE", "Z"),                                   # Generated/Consts.v: read from common.py
+    ("treatment_ids.shape[1]", "Z.of_nat arity", "Z"),
+    ("__a.shape[0]", "Z.of_nat (length {a})", "Z"),                                              # first axis = number of rows
+    ("len(__a)", "Z.of_nat (length {a})", "Z"),
+    ("__a == __v", "np_eq2 {a} {v}", _BM, {"a": _ZM, "v": "Z"}),
+    ("__a == __v", "np_eq1 {a} {v}", _BS, {"a": _ZS, "v": "Z"}),
+    ("__a == __v", "{a} =? {v}", "bool", {"a": "Z", "v": "Z"}),
+    ("__a != __v", "np_ne1 {a} {v}", _BS, {"a": _ZS, "v": "Z"}),
+    ("__a != __v", "negb ({a} =? {v})", "bool", {"a": "Z", "v": "Z"}),
+    ("np.sum(__m, axis=1)", "np_sum_rows {m}", _ZS, {"m": _BM}),
+    ("~__m", "np_not {m}", _BS, {"m": _BS}),
+    ("__a & __b", "!np_and {a} {b}", _BS, {"a": _BS, "b": _BS}),
+    ("__a[__m, :]", "!np_select {m} {a}", _ZM, {"a": _ZM, "m": _BS}),
+    ("__a[:, -1]", "!np_last_col arity {a}", _ZS, {"a": _ZM}),
+    ("__a[__m]", "!np_select {m} {a}", _ZS, {"a": _ZS, "m": _BS}),
+    ("__a[__m]", "!np_select {m} {a}", _QS, {"a": _QS, "m": _BS}),
+    ("np.sort(__a, axis=1)", "np_sort_rows {a}", _ZM, {"a": _ZM}),
+    ("np.unique(__a)", "sorted_unique {a}", _ZS, {"a": _ZS}),
+    ("__a.flatten()", "concat {a}", _ZS, {"a": _ZM}),
+    ("np.any(__m)", "np_any {m}", "bool", {"m": _BS}),
+    ("np.mean(__x)", "!np_mean {x}", _QC, {"x": _QS}),
+    ("np.prod(__x)", "qprod {x}", _QC, {"x": _QS}),                                             # of a Python list of floats; 1.0 for []
+    ("zip(__a, __b, __c)", "zip3 {a} {b} {c}", "list (Z * list Z * %s)" % _QC, {"a": _ZS, "b": _ZM, "c": _QS}),
+    ("zip(__a, __b)", "combine {a} {b}", "list (Z * list Z)", {"a": _ZS, "b": _ZM}),
+    ("np.array(__l)", "!np_array_rows {l}", _ZM, {"l": _ZM}),
+    ("np.array(__l)", "{l}", _ZS, {"l": _ZS}),
+    ("np.array(__l)", "{l}", _QS, {"l": _QS}),
+    ("np.ones_like(__a, dtype=float)", "np_ones_like {a}", "list list " + _QC, {"a": _ZM}),
+]
+_C20_SYN = dict(
+    imports="Generated.Consts Model.Metrics Model.Synergy", out="SrcSynergy.v", overload=True, prims=_C20_NUMPY,
+    arith={_QC: {"Sub": "Qcanon.Qcminus"}}, float_consts={"1.0": ("q_one", _QC)}, key_error=5, index_error=4,
+    # create_single_treatment_effect_map(sample_ids=..., treatment_ids=..., observation=...) runs the translated function
+    kwcalls={"create_single_treatment_effect_map": (
+        "!src_create_single_treatment_effect_map arity {sample_ids} {treatment_ids} {observation}", _EMAP,
+        [("sample_ids", _ZS, None), ("treatment_ids", _ZM, None), ("observation", _QS, None)])},
+    ignore=["logger.warning(__a)"],
+)
+C20_EFFECT_MAP = dict(
+    _C20_SYN, file="src/batchie/data.py", func="create_single_treatment_effect_map", name="src_create_single_treatment_effect_map",
+    pyparams=["sample_ids", "treatment_ids", "observation"],
+    params=[("arity", "nat"), ("sample_ids", _ZS), ("treatment_ids", _ZM), ("observation", _QS)], returns=_EMAP,
+    vars={"single_treatment_mask": _BS, "single_treatment_observations": _QS, "single_treatment_treatments": _ZS,
+          "single_treatment_sample_ids": _ZS, "result": _EMAP, "current_sample_id": "Z", "current_treatment_id": "Z",
+          "mask": _BS, "single_effect": _QC},
+    raises=[("Experiment must have more than one treatment to get single treatment effects", 1)],
+)
+C20_EFFECT_ARRAY = dict(
+    _C20_SYN, file="src/batchie/data.py", func="create_single_treatment_effect_array", name="src_create_single_treatment_effect_array",
+    pyparams=["sample_ids", "treatment_ids", "observation"],
+    params=[("arity", "nat"), ("sample_ids", _ZS), ("treatment_ids", _ZM), ("observation", _QS)], returns="list list " + _QC,
+    vars={"single_treatment_effect_map": _EMAP, "result": "list list " + _QC, "idx": "Z", "current_sample_id": "Z",
+          "current_treatment_ids": _ZS, "treatment_idx": "Z", "current_treatment_id": "Z"},
+)
+C20_SYNERGY = dict(
+    _C20_SYN, file="src/batchie/synergy.py", func="calculate_synergy", name="src_calculate_synergy",
+    pyparams=["sample_ids", "treatment_ids", "observation", "strict"], pydefaults=["False"],
+    params=[("arity", "nat"), ("sample_ids", _ZS), ("treatment_ids", _ZM), ("observation", _QS), ("strict", "bool")],
+    returns="(list Z * list list Z * list %s)" % _QC,
+    vars={"single_treatment_effect_map": _EMAP, "single_treatment_mask": _BS, "multi_treatment_observation": _QS,
+          "multi_treatment_treatments": _ZM, "multi_treatment_sample_ids": _ZS, "result_synergy": _QS,
+          "result_treatment_ids": _ZM, "result_sample_ids": _ZS, "idx": "Z", "current_sample_id": "Z",
+          "current_treatment_ids": _ZS, "observation": _QC,        # the loop rebinds the parameter's name to the row's scalar
+          "single_effects": _QS, "current_treatment_id": "Z", "synergy": _QC},
+    raises=[("Experiment must have more than one treatment to calculate synergy", 1),
+            ("Sample and treatment ids must be the same length", 1), ("Sample and observation ids must be the same length", 1),
+            ("has no control for treatment", 1)],
+)
+ALL += [C20_EFFECT_MAP, C20_EFFECT_ARRAY, C20_SYNERGY]
